@@ -461,13 +461,22 @@ func (ex *Exec) assumeAlloc(f *Term) {
 	ex.assume(f)
 }
 
+// entryBound: for values read from regions untouched since the function was entered, the reference was allocated before
+// the function started (it is at most the entry allocation counter); true otherwise.
+func (ex *Exec) entryBound(r *Term) *Term {
+	if ex.wfNA != nil {
+		return ex.ts.Le(r, ex.wfNA, true)
+	}
+	return ex.ts.True()
+}
+
 func (ex *Exec) assumeWF(v Val, t types.Type) {
 	ts := ex.ts
 	switch x := v.(type) {
 	case Scalar:
 		if _, isMap := under(t).(*types.Map); isMap && x.T != nil && x.T.S == SInt {
 			// a map handle is nil or an allocated map
-			ex.assumeAlloc(ts.And(ts.Le(ts.Int(0), x.T, true), ts.Le(x.T, ex.st.na, true)))
+			ex.assumeAlloc(ts.And(ts.Le(ts.Int(0), x.T, true), ts.Le(x.T, ex.st.na, true), ex.entryBound(x.T)))
 		}
 		if x.T != nil && isInteger(t) && !ex.bv {
 			lo, hi := intRange(t)
@@ -487,9 +496,9 @@ func (ex *Exec) assumeWF(v Val, t types.Type) {
 			ts.Le(z, x.Len, true), ts.Le(x.Len, x.Cap, true), ts.Le(z, x.Off, true),
 			ts.Le(x.Cap, mx, true), ts.Le(x.Off, mx, true),
 			ts.Implies(ts.Eq(x.Base, ts.Int(0)), ts.And(ts.Eq(x.Cap, z), ts.Eq(x.Off, z)))))
-		ex.assumeAlloc(ts.And(ts.Le(ts.Int(0), x.Base, true), ts.Le(x.Base, ex.st.na, true)))
+		ex.assumeAlloc(ts.And(ts.Le(ts.Int(0), x.Base, true), ts.Le(x.Base, ex.st.na, true), ex.entryBound(x.Base)))
 	case RefPtr:
-		ex.assumeAlloc(ts.And(ts.Le(ts.Int(0), x.Ref, true), ts.Le(x.Ref, ex.st.na, true)))
+		ex.assumeAlloc(ts.And(ts.Le(ts.Int(0), x.Ref, true), ts.Le(x.Ref, ex.st.na, true), ex.entryBound(x.Ref)))
 	case IfaceV:
 		ex.assume(ts.Le(ts.Int(0), x.Tag, true))
 		ex.assume(ts.Le(x.Val, ex.st.na, true))
